@@ -632,6 +632,20 @@ def arrSet (h : Heap) (a : Nat) : Res Unit :=
       | _ => (h, .error .bad)
     | _ => (h, .error .attr)
 
+/-! ### `copy.deepcopy(sv)` as the code has it (open finding C15-deepcopy-shares-data) -/
+
+/-- `copy.deepcopy(sv)` / `copy.copy(sv)`: StateVector defines neither `__deepcopy__` nor `__copy__`, so `ndarray`'s run: the
+buffer is duplicated and `__array_finalize__` hands the new object `obj._data.copy()` — a SHALLOW copy of the dict:
+every container, the maneuver list, the covariance object and the propagator are the receiver's own -/
+def stdDeepcopy (h : Heap) (a : Nat) : Res Nat :=
+  match getSV h a with
+  | none => (h, .error .bad)
+  | some s =>
+    let (h, b) := alloc h (.buf s.val)
+    let (h, d) := alloc h (.dict s.items)
+    let (h, n) := alloc h (.sv s.orbit b d)
+    (h, .ok n)
+
 /-! ### constructors given an existing object -/
 
 /-- the `date` entry (a Date is an immutable value) -/
